@@ -38,11 +38,13 @@ type ProgFunc struct {
 	Params   []ProgParam `json:"params"`         // without the receiver
 	CallLine int         `json:"call_line"`      // line of the call to the next function (or of the panic)
 	Words    int         `json:"words"`          // total words including the receiver
+	File     string      `json:"file,omitempty"` // source file holding the function ("" = main.go)
 }
 
 // Prog is a generated program.
 type Prog struct {
 	Src   string     `json:"src"`
+	Src2  string     `json:"src2,omitempty"` // part2.go when the program has two source files
 	Funcs []ProgFunc `json:"funcs"`
 }
 
@@ -169,7 +171,11 @@ func GenParam(r *core.Rand) ProgParam {
 }
 
 // GenProg makes a program: one chain of n functions and pointer-receiver methods.
-func GenProg(r *core.Rand, n int) *Prog {
+func GenProg(r *core.Rand, n int) *Prog { return GenProgFiles(r, n, false) }
+
+// GenProgFiles is GenProg; with twoFiles the functions alternate between main.go and part2.go (frames with
+// arguments in several source files of one snapshot).
+func GenProgFiles(r *core.Rand, n int, twoFiles bool) *Prog {
 	p := &Prog{}
 	nmeth := 0
 	for i := 0; i < n; i++ {
@@ -213,22 +219,29 @@ func GenProg(r *core.Rand, n int) *Prog {
 		}
 		p.Funcs = append(p.Funcs, f)
 	}
-	var b strings.Builder
-	line := 0
-	w := func(s string) {
-		b.WriteString(s + "\n")
-		line++
+	type fileW struct {
+		b    strings.Builder
+		line int
 	}
-	w("package main")
-	w("")
-	w("import (")
-	w("\t\"fmt\"")
-	w("\t\"time\"")
-	w(")")
-	w("")
-	w("var _ fmt.Stringer")
-	w("var _ = time.Second")
-	w("")
+	wr := func(f *fileW, s string) {
+		f.b.WriteString(s + "\n")
+		f.line++
+	}
+	header := func(f *fileW) {
+		wr(f, "package main")
+		wr(f, "")
+		wr(f, "import (")
+		wr(f, "\t\"fmt\"")
+		wr(f, "\t\"time\"")
+		wr(f, ")")
+		wr(f, "")
+		wr(f, "var _ fmt.Stringer")
+		wr(f, "var _ = time.Second")
+		wr(f, "")
+	}
+	f1, f2 := &fileW{}, &fileW{}
+	header(f1)
+	w := func(s string) { wr(f1, s) }
 	w("type T struct{ a, b int }")
 	w("")
 	w("type U struct{ s string }")
@@ -243,6 +256,14 @@ func GenProg(r *core.Rand, n int) *Prog {
 	w("\tgU      = &U{\"u\"}")
 	w(")")
 	w("")
+	if twoFiles {
+		header(f2)
+		// the second file is longer than the first up to here: positions in it are far from those of main.go
+		for k := 0; k < 40; k++ {
+			wr(f2, fmt.Sprintf("// filler line %d of the second source file", k))
+		}
+		wr(f2, "")
+	}
 	call := func(i int) string {
 		if i >= len(p.Funcs) {
 			return "panic(\"boom\")"
@@ -259,6 +280,11 @@ func GenProg(r *core.Rand, n int) *Prog {
 	}
 	for i := range p.Funcs {
 		f := &p.Funcs[i]
+		out := f1
+		if twoFiles && i%2 == 1 {
+			out = f2
+			f.File = "part2.go"
+		}
 		var ps []string
 		for k := 0; k < len(f.Params); k++ {
 			// group consecutive parameters of the same type now and then: "p0, p1 int"
@@ -270,18 +296,21 @@ func GenProg(r *core.Rand, n int) *Prog {
 			ps = append(ps, fmt.Sprintf("p%d %s", k, f.Params[k].Kind))
 		}
 		if f.Method {
-			w(fmt.Sprintf("func (t *%s) %s(%s) {", f.Recv, f.Name, strings.Join(ps, ", ")))
+			wr(out, fmt.Sprintf("func (t *%s) %s(%s) {", f.Recv, f.Name, strings.Join(ps, ", ")))
 		} else {
-			w(fmt.Sprintf("func %s(%s) {", f.Name, strings.Join(ps, ", ")))
+			wr(out, fmt.Sprintf("func %s(%s) {", f.Name, strings.Join(ps, ", ")))
 		}
-		w("\t" + call(i+1))
-		f.CallLine = line
-		w("}")
-		w("")
+		wr(out, "\t"+call(i+1))
+		f.CallLine = out.line
+		wr(out, "}")
+		wr(out, "")
 	}
 	w("func main() {")
 	w("\t" + call(0))
 	w("}")
-	p.Src = b.String()
+	p.Src = f1.b.String()
+	if twoFiles {
+		p.Src2 = f2.b.String()
+	}
 	return p
 }
